@@ -264,9 +264,17 @@ func registerIntrinsics(m *Machine) {
 	}
 
 	// ---- sync/atomic: plain operations (the engine is sequentially consistent) ----
+	// With the run parameter ATOMIC_POINTS = 1 every atomic operation is preceded by a scheduling
+	// point, so that other goroutines may run between two atomic operations of one goroutine.
+	atomicPoint := func(m *Machine) {
+		if m.sched != nil && m.Params["ATOMIC_POINTS"] == 1 {
+			m.blockOn(&pendingOp{kind: "yield"}) // switching away here costs a preemption
+		}
+	}
 	for _, ty := range []string{"Int32", "Int64", "Uint32", "Uint64", "Uintptr"} {
 		ty := ty
 		in["sync/atomic.Load"+ty] = func(m *Machine, fr *frame, a []value) value {
+			atomicPoint(m)
 			p := a[0].(*value)
 			if p == nil {
 				panic(rtPanic("invalid memory address or nil pointer dereference"))
@@ -274,22 +282,26 @@ func registerIntrinsics(m *Machine) {
 			return *p
 		}
 		in["sync/atomic.Store"+ty] = func(m *Machine, fr *frame, a []value) value {
+			atomicPoint(m)
 			m.store(a[0].(*value), a[1])
 			return nil
 		}
 		in["sync/atomic.Add"+ty] = func(m *Machine, fr *frame, a []value) value {
+			atomicPoint(m)
 			p := a[0].(*value)
 			nv := m.T.Bin(OpAdd, (*p).(*Term), a[1].(*Term))
 			m.store(p, nv)
 			return nv
 		}
 		in["sync/atomic.Swap"+ty] = func(m *Machine, fr *frame, a []value) value {
+			atomicPoint(m)
 			p := a[0].(*value)
 			old := *p
 			m.store(p, a[1])
 			return old
 		}
 		in["sync/atomic.CompareAndSwap"+ty] = func(m *Machine, fr *frame, a []value) value {
+			atomicPoint(m)
 			p := a[0].(*value)
 			if m.decide(m.T.Eq((*p).(*Term), a[1].(*Term))) {
 				m.store(p, a[2])
@@ -448,6 +460,9 @@ func registerIntrinsics(m *Machine) {
 		m.assertProp(m.strEq(got, want), a[2].(Str).s)
 		return nil
 	}
+	// symNative: false under the engine (natively true); symNativeRepeat: 1 under the engine
+	in["sym:symNative"] = func(m *Machine, fr *frame, a []value) value { return m.T.False }
+	in["sym:symNativeRepeat"] = func(m *Machine, fr *frame, a []value) value { return m.T.Const(64, 1) }
 	in["sym:symCover"] = func(m *Machine, fr *frame, a []value) value {
 		label := a[0].(Str).s
 		m.path.covers[label]++
